@@ -318,13 +318,14 @@ func safeInput(m ref.Suite, in ref.Input) ref.Input {
 func init() {
 	register(&Prop{
 		ID: "C06",
-		Rule: "for the C05 suite/input population plus derived failure cases (undecodable secret, each way a suite is unusable, each way an input is inadmissible): GenerateOCRA is run, then ValidateOCRA on the generated code, its single-character edits, truncations/extensions, padded variants, reference codes of a neighbouring counter/challenge/timestamp/sibling suite, '', zeros and random bytes; verdict must equal (submitted == generated), or (false, error) whenever generation fails; a one-goroutine history per suite with challenge and session: the base input, then inputs whose unpadded concatenation is the same byte string cut at other field boundaries, each with the base's code and its own (observed.recut_history_calls); " +
+		Rule: "for the C05 suite/input population plus derived failure cases (undecodable secret, each way a suite is unusable, each way an input is inadmissible): GenerateOCRA is run, then ValidateOCRA on the generated code, its single-character edits, truncations/extensions, padded variants, reference codes of a neighbouring counter/challenge/timestamp/sibling suite, '', zeros and random bytes; verdict must equal (submitted == generated), or (false, error) whenever generation fails; a one-goroutine history per suite with challenge and session: the base input, then inputs whose unpadded concatenation is the same byte string cut at other field boundaries, or exchanged between fields, each with the base's code and its own (observed.recut_history_calls), and one set of caller-owned buffers rewritten in place between calls (observed.reused_buffer_history_calls); " +
 			"distinct_nontrivial counts distinct (case, submitted) pairs where the submitted string is the generated code or has its length, plus distinct (failing case, submitted) pairs",
 		Run: func(c *Ctx) {
 			b := newBatcher(c, judgeOCRAV, 0)
 			c06Cases(c, b.add)
 			b.flush()
 			c06RecutHistory(c)
+			c05ReusedBuffers(c, true)
 		},
 		Replay: func(c *Ctx, kind string, raw json.RawMessage) error {
 			return replayAs(raw, func(k ocraVCase) { judgeOCRAV(c, k) })
